@@ -240,7 +240,7 @@ func runC17e2e(c *Ctx) {
 	r := c.Rng
 	base := libraryGoroutines()
 	typeBytes := []int{27, 27, 4, 15, 16, 19, 2, 3, 34, 35, -1, -1}
-	for k := 0; k < c.N(10, 150); k++ {
+	for k := 0; k < c.N(10, 150)+6; k++ {
 		cfg := baseCfg(r, r.Intn(len(baseCfgs)))
 		h := genHistory(r, cfg, histOpts{units: 3 + r.Intn(4), maxCols: 2, maxRows: 2, rotations: k%3 == 0, ignorables: true})
 		h.encode(c)
@@ -252,8 +252,17 @@ func runC17e2e(c *Ctx) {
 		at := 2 + r.Intn(len(evs)-2)
 		src := evs[2+r.Intn(len(evs)-2)]
 		var bad []byte
-		kind := r.PickS("truncated", "extended", "garbage")
+		kind := r.PickS("truncated", "extended", "garbage", "prefixed")
+		preIdx := r.Side().Intn(6)
+		if k < 6 {
+			kind, preIdx = "prefixed", k // every prefix once
+		}
 		switch kind {
+		case "prefixed":
+			// an over-long packet whose TAIL is a complete, self-consistent event: bytes in front of it that a layer below
+			// the parser might know (the 0xef + flag header of semi-synchronous replication, a stray OK / EOF marker)
+			pre := [][]byte{{0xef, 0x00}, {0xef, 0x01}, {0x00}, {0xfe}, {0xef}, {0xef, 0x01, 0x00}}[preIdx]
+			bad = append(append([]byte{}, pre...), src...)
 		case "truncated":
 			n := 5 + r.Intn(len(src)-5)
 			bad = append([]byte{}, src[:n]...)
@@ -266,6 +275,9 @@ func runC17e2e(c *Ctx) {
 			}
 		}
 		tb := typeBytes[r.Intn(len(typeBytes))]
+		if kind == "prefixed" {
+			tb = -1
+		}
 		if tb >= 0 {
 			bad[4] = byte(tb)
 		}
